@@ -30,6 +30,11 @@ type SliceOpts struct {
 	// NoIndex: do not follow the index operand of element accesses (range
 	// counters and their arithmetic are not part of the element's provenance).
 	NoIndex bool
+	// Control: when the slice reaches a phi all of whose incoming values are
+	// constants (a flag or enum variable), continue into the conditions that
+	// select its incoming edges. Used when slicing a guard: `switch mode {…}`
+	// with `mode` computed by an if-chain is a test of what the if-chain tested.
+	Control bool
 }
 
 // Slice is the result: leaves and every traversed value.
@@ -189,8 +194,24 @@ func (sl *slicer) visit(v ssa.Value, ctx *frame) {
 	case *ssa.FreeVar:
 		sl.visitFreeVar(x, ctx)
 	case *ssa.Phi:
+		allConst := len(x.Edges) > 0
 		for _, e := range x.Edges {
 			sl.visit(e, ctx)
+			if _, isK := e.(*ssa.Const); !isK && e != ssa.Value(x) {
+				allConst = false
+			}
+		}
+		if sl.opts.Control && allConst {
+			// a flag / enum merged from constants carries no data: what it stands for is the
+			// conditions that select its incoming edges (control dependence)
+			for i := range x.Edges {
+				if i >= len(x.Block().Preds) {
+					continue
+				}
+				for _, g := range GuardsOfEdge(x.Block().Preds[i], x.Block()) {
+					sl.visit(g.If.Cond, ctx)
+				}
+			}
 		}
 	case *ssa.BinOp:
 		s.leaf("op:"+x.Op.String(), x)
@@ -639,6 +660,32 @@ func (sl *slicer) visitCall(c *ssa.Call, idx int, ctx *frame) {
 	}
 	if !c.Call.IsInvoke() && callee == nil {
 		sl.visit(c.Call.Value, ctx)
+		// a call of a function value: the repo functions it can be (VTA call graph) are entered like
+		// static callees — a table of constructors or handlers is a switch written as data
+		if _, isBuiltin := c.Call.Value.(*ssa.Builtin); !isBuiltin && depth < sl.opts.Depth {
+			if n := p.CallGraph().Nodes[c.Parent()]; n != nil {
+				k := 0
+				for _, e := range n.Out {
+					if e.Site != ssa.CallInstruction(c) || e.Callee == nil || !p.IsRepo(e.Callee.Func) || inStack(ctx, e.Callee.Func) {
+						continue
+					}
+					if k++; k > 8 {
+						break
+					}
+					s.leaf("via:"+p.FuncName(e.Callee.Func), c)
+					nf := &frame{call: c, callee: e.Callee.Func, up: ctx, depth: depth + 1}
+					for _, r := range Returns(e.Callee.Func) {
+						if idx >= 0 && idx < len(r.Results) {
+							sl.visit(r.Results[idx], nf)
+						} else {
+							for _, rv := range r.Results {
+								sl.visit(rv, nf)
+							}
+						}
+					}
+				}
+			}
+		}
 	}
 	for _, a := range Args(c) {
 		sl.visit(a, ctx)
